@@ -16,7 +16,7 @@ from ..harness import _SETUP, qcall, tree_hash
 ID = "C12"
 LEVEL = "exploration"
 BUDGET = {"quick": 640, "thorough": 16000}
-TECHNIQUE = "schedule exploration with a schedule-owning pool (exhaustive per pool call for <= 4 tasks, four fixed permutations per larger call, Hypothesis-drawn joint schedules, eager / lazy) plus a real-process differential tier with worker counts and per-task delays"
+TECHNIQUE = "schedule exploration with a schedule-owning pool (exhaustive per pool call for <= 4 tasks, four fixed permutations per larger call, Hypothesis-drawn joint schedules, eager / lazy) plus substituted CPU counts, and a real-process differential tier (worker counts, start methods, per-task delays) with a structural oracle for runs that would not end"
 RULE = ("Hypothesis-generated case = entry point in {reader [] selections, reader .iter, level iteration, taste, "
         "colander, combine, chef (parallel vs serial), mandoline 2D, mandoline 3D array, mandoline 3D plotfile, pestle, "
         "whip, chk2plt} x small generated input (1-4 binary files / boxes per pool call where possible). Reference = "
@@ -24,7 +24,7 @@ RULE = ("Hypothesis-generated case = entry point in {reader [] selections, reade
         "2..4 tasks, every execution order (and, for imap_unordered, every completion order) while the other calls "
         "keep submission order, and for calls with more tasks four fixed permutations (reversed, rotated, first / last two swapped); (ii) a drawn joint schedule for all calls with the eager / lazy flag; (iii) in 1 of 8 "
         "cases (quick) real multiprocessing / pathos pools with a drawn worker count in {1,2,3,4,8,16} and drawn "
-        "per-task delays of 0-20 ms, twice in a row in the same process for chef (stale-worker history). Oracle: "
+        "per-task delays of 0-20 ms and a drawn start method (fork / spawn / forkserver), in a fresh child interpreter, twice in a row in the same process for chef (stale-worker history) and again after a chdir to other data under the same relative names; the child also reports a pool finalized by its own handler thread while the caller is inside next() of its result iterator (the deterministic precondition of the intermittent hang F58); (ii-b) the whole run again with os.cpu_count answering 1 and one of 2, 3, 5, 7, 16. Oracle: "
         "sha256 of every produced file and bit-exact returned values equal the reference. evaluations counts cases; "
         "`schedules` counts tool executions. Non-trivial = some schedule != identity on a call with >= 2 tasks.")
 ASSUMPTIONS = ["the in-process pool is faithful to pool semantics: ordered results for map / imap, arbitrary completion order for imap_unordered, pickled arguments",
@@ -38,7 +38,7 @@ RECIPE = 'import numpy as np\n\ndef recipe(field_indexes, box_array):\n    """tw
 
 @st.composite
 def cases(draw, tier="quick"):
-    entry = ENTRIES[draw(st.integers(0, 2 ** 16)) % len(ENTRIES)]
+    entry = os.environ.get("AKV_C12_ENTRY") or ENTRIES[draw(st.integers(0, 2 ** 16)) % len(ENTRIES)]          # (debug knob: one entry only)
     nd = 2 if entry == "mand2d" else 3
     spec = draw(plotgen.plot_specs(thin=True, ndims=nd, max_levels=2, max_cells=500, fields=["temp", "density", "Y(H2)", "volFrac"],
                                    payload_kinds=("random",), layouts=("scatter", "nonmono", "scatter", "nonmono", "single"), max_nb0=3))
@@ -61,10 +61,13 @@ def cases(draw, tier="quick"):
         chk["mesh"]["rects"] = chk["mesh"]["rects"][:chk["mesh"]["nlev"] - 1]
     code = st.lists(st.integers(0, 11), max_size=6)
     sched = dict(exec=[draw(code) for _ in range(6)], comp=[draw(code) for _ in range(6)], lazy=draw(st.booleans()))
-    real = draw(st.integers(0, 2 ** 16)) % (8 if tier == "quick" else 4) == 1 or (entry == "chef_ct" and draw(st.booleans()))
+    real = draw(st.integers(0, 2 ** 16)) % (8 if tier == "quick" else 4) == 1 or (entry == "chef_ct" and draw(st.booleans())) \
+        or bool(os.environ.get("AKV_FORCE_REAL"))          # (debug knob: every case runs the real-pool tier)
     return dict(entry=entry, spec=spec, chk=chk, sched=sched, layout2=draw(plotgen.layouts()), normal=draw(st.integers(0, 2)),
                 frac=draw(st.sampled_from([0.2, 0.3, 0.45, 0.55, 0.7])), real=real,
-                workers=draw(st.sampled_from([1, 2, 3, 4, 8, 16])), delay_seed=draw(st.integers(0, 9999)))
+                workers=draw(st.sampled_from([1, 2, 3, 4, 8, 16])), delay_seed=draw(st.integers(0, 9999)),
+                # start method of the real worker processes (only used by the real-pool tier)
+                start=os.environ.get("AKV_FORCE_START") or ["fork", "spawn", "fork", "forkserver"][draw(st.integers(0, 2 ** 16)) % 4])
 
 
 def compact(case):
@@ -121,6 +124,15 @@ def run_entry(case, serial=False):
         from amr_kitchen.taste import Taster
         res = [bool(Taster("src", nofail=True, verbose=0, boxes_coordinates=True)),
                bool(Taster("damaged", nofail=True, verbose=0)), bool(Taster("src", nofail=True, verbose=0, binary_data=True))]
+        if os.path.isdir("damaged_last"):
+            # failing mode, level limit by level limit: the defect reported (the first one in file and box order) is the same
+            # whatever the workers, their number and the order of the tasks
+            for lim in range(2):
+                try:
+                    Taster("damaged_last", verbose=0, limit_level=lim)
+                    res.append("accepted")
+                except Exception as ex:
+                    res.append(f"{type(ex).__name__}: {ex}")
         if os.path.isdir("damaged_many"):
             try:
                 Taster("damaged_many", verbose=0)
@@ -159,11 +171,11 @@ def run_entry(case, serial=False):
         return digest(hashes)
     elif e == "mand2d":
         from amr_kitchen.mandoline import Mandoline
-        m = Mandoline("src", fields=["temp", "grid_level", "density"], serial=serial, verbose=0)
+        m = Mandoline("src", fields=["density", "grid_level", "temp"], serial=serial, verbose=0)      # (not in file order)
         return digest([m.slice(fformat="return"), m.slice(fformat="return")])      # one object, two calls (history)
     elif e in ("mand3d", "mand3d_plt"):
         from amr_kitchen.mandoline import Mandoline
-        m = Mandoline("src", fields=["temp", "density"] + (["grid_level"] if e == "mand3d" else []), serial=serial, verbose=0)
+        m = Mandoline("src", fields=["Y(H2)", "temp", "density"] + (["grid_level"] if e == "mand3d" else []), serial=serial, verbose=0)      # (not in file order)
         pos = case["_pos"]
         if e == "mand3d":
             return digest([m.slice(normal=case["normal"], pos=pos, fformat="return"), m.slice(normal=case["normal"], pos=pos, fformat="return")])
@@ -177,7 +189,7 @@ def run_entry(case, serial=False):
     elif e == "whip":
         import amr_kitchen.whip.cli as whip
         old = sys.argv
-        sys.argv = ["whip", "-v", "temp", "-y", "-o", "out", "src"]
+        sys.argv = ["whip", "-v", "density", "-y", "-o", "out", "src"]      # not the first field: state set in the parent (field index, ...) must reach the workers under every start method
         try:
             whip.main()
         finally:
@@ -201,10 +213,11 @@ class DelayPool:
     workers = 4
     seed = 0
     calls = 0
+    method = "fork"       # start method of the worker processes: fork (Linux default), spawn (macOS / Windows default), forkserver
 
     def __init__(self, *a, **k):
         import multiprocessing
-        self.p = multiprocessing.get_context("fork").Pool(processes=DelayPool.workers)
+        self.p = multiprocessing.get_context(DelayPool.method).Pool(processes=DelayPool.workers)
 
     def _pack(self, f, it):
         tasks = list(it)
@@ -268,13 +281,14 @@ class DelayPathos:
 
 
 class real_pools:
-    def __init__(self, workers, seed):
-        self.workers, self.seed = workers, seed
+    def __init__(self, workers, seed, method="fork"):
+        self.workers, self.seed, self.method = workers, seed, method
 
     def __enter__(self):
         import multiprocessing
         import importlib
         DelayPool.workers, DelayPool.seed, DelayPool.calls = self.workers, self.seed, 0
+        DelayPool.method = self.method
         self.saved = (multiprocessing.Pool, importlib.import_module("amr_kitchen.chef.chef").Pool,
                       sys.modules["amr_kitchen.chk2plt.chk2plt"].Pool)
         # the machine "has" as many CPUs as the pool has workers (code that sizes batches from the CPU count sees it too)
@@ -327,6 +341,16 @@ def prepare(case, variant):
                 seen.add(f)
                 try:
                     corrupt.apply("damaged_many", dict(kind="fab_shift", lv=plot.nlev - 1, box=b, amt=8, dim=b % plot.ndims, side=0))
+                except corrupt.NotApplicable:
+                    pass
+    if e == "taste":
+        # the box stored last in every binary file of every level is damaged (visible to the header check only): work split
+        # by box count and worker count must still reach the last box of each file
+        shutil.copytree("damaged" if variant else "src", "damaged_last")
+        for l in range(plot.nlev):
+            for fi, bids in sorted(plot.disk_sequence(l).items()):
+                try:
+                    corrupt.apply("damaged_last", dict(kind="fab_shift", lv=l, box=bids[-1], amt=8, dim=0, side=0))
                 except corrupt.NotApplicable:
                     pass
     if e == "chef":
@@ -423,10 +447,23 @@ def check_case(case, ctx):
     m = run_with(case["sched"], f"the drawn joint schedule {case['sched']}")
     if m:
         return v + [m]
+    # (ii-b) another worker count: code that sizes its batches or chunks from the CPU count sees 1, 2, 3, 5, 7 or 16 CPUs
+    import multiprocessing as _mp
+    saved_cpu = (os.cpu_count, _mp.cpu_count)
+    for ncpu in sorted({1, [2, 3, 5, 7, 16][case["delay_seed"] % 5]}):
+        os.cpu_count = _mp.cpu_count = (lambda n=ncpu: n)
+        try:
+            m = run_with(case["sched"] if ncpu > 1 else None, f"a machine with {ncpu} CPU(s)")
+        finally:
+            os.cpu_count, _mp.cpu_count = saved_cpu
+        ctx.label("cpu-count-varied")
+        if m:
+            return v + [m]
     # (iii) real pools, in a fresh interpreter whose very first pool is a real one (so that workers or pools the code
     #       keeps alive between calls are real processes too), then the same relative names in another directory
     if case["real"]:
         ctx.label(f"real-pools:{case['workers']}workers")
+        ctx.label(f"real-pools:start={case.get('start', 'fork')}")
         here = os.getcwd()
         os.makedirs("elsewhere")
         os.chdir("elsewhere")
@@ -442,7 +479,8 @@ def check_case(case, ctx):
         import subprocess
         with open("real_case.json", "w") as fh:
             json.dump(dict(case=case, case2=case2, dir_a=here, dir_b=os.path.join(here, "elsewhere"), workers=case["workers"],
-                           delay_seed=case["delay_seed"], reps=2 if e in ("chef", "chef_ct") else 1), fh)
+                           delay_seed=case["delay_seed"], reps=2 if e in ("chef", "chef_ct") else 1,
+                           start=case.get("start", "fork")), fh)
         env = dict(os.environ, PYTHONPATH=os.path.dirname(os.path.dirname(os.path.dirname(os.path.abspath(__file__)))))
         try:
             pr = subprocess.run([sys.executable, "-m", "akv.props.c12", "real_case.json"], capture_output=True, text=True, env=env, timeout=150)
@@ -456,9 +494,14 @@ def check_case(case, ctx):
         except Exception:
             from ..harness import HarnessError
             raise HarnessError(f"real-pool child failed: {pr.stdout[-300:]} {pr.stderr[-600:]}")
+        if out.get("hazard"):
+            ctx.label("real-pools:pool-finalized-in-own-thread")
+            v.append(f"with real pools ({case['workers']} workers) a process pool was released while its results were still being "
+                     f"delivered and got finalized from its own handler thread ({out['hazard'][0]}, {len(out['hazard'])}x): "
+                     f"the documented way for the run to block forever instead of ending {what}")
         for k, (got, want, desc) in enumerate(zip(out["a"], [ref] * len(out["a"]), [f"run {i + 1}" for i in range(len(out["a"]))])):
             if got != want:
-                v.append(f"result with real pools ({case['workers']} workers, delays seed {case['delay_seed']}, {desc} in one process) "
+                v.append(f"result with real pools ({case['workers']} workers, start method {case.get('start', 'fork')}, delays seed {case['delay_seed']}, {desc} in one process) "
                          f"differs from the identity-schedule result{': ' + got if got.startswith('raised') else ''} {what}")
                 break
         if not v and out["b"] != ref2:
@@ -474,8 +517,50 @@ def _child_main(path):
     harness.setup_repo(patch_pools=False)
     with open(path) as fh:
         job = json.load(fh)
-    out = dict(a=[], b=None)
-    with real_pools(job["workers"], job["delay_seed"]):
+    out = dict(a=[], b=None, hazard=[])
+    # Structural oracle for "the run ends".  A multiprocessing pool whose last reference is the result iterator the caller is
+    # still reading gets finalized by its own handler thread at the moment that thread stores the last result - while it holds
+    # the iterator's lock, which the caller needs for its next item.  If the finalization blocks (it joins the pool's other
+    # threads from inside one of them) the caller blocks forever: the hazard the multiprocessing documentation warns about,
+    # observed on this code as an intermittent hang of level iteration (F58).  The condition is deterministic, the hang is
+    # not, so the condition is what is reported - and only when a caller thread is inside next() of that iterator at that
+    # moment (a pool abandoned together with its iterator, e.g. after validation raised, cannot block anyone: not reported).
+    import multiprocessing.pool as _mpp
+    import threading as _threading
+    _orig_terminate = _mpp.Pool._terminate_pool.__func__
+    _serving = _threading.local()
+
+    def _wrap_setter(name):
+        orig = getattr(_mpp.IMapIterator, name)
+
+        def setter(self, *a):
+            _serving.it = self
+            try:
+                return orig(self, *a)
+            finally:
+                _serving.it = None
+        setattr(_mpp.IMapIterator, name, setter)
+    _wrap_setter("_set")
+    _wrap_setter("_set_length")
+
+    def _watched_terminate(cls, taskqueue, inqueue, outqueue, pool, change_notifier, worker_handler, task_handler,
+                           result_handler, cache):
+        cur = _threading.current_thread()
+        it = getattr(_serving, "it", None)
+        if (cur is worker_handler or cur is task_handler or cur is result_handler) and it is not None:
+            # is another thread inside next() of this very iterator right now (waiting for the lock this thread holds)?
+            for ident, fr in sys._current_frames().items():
+                if ident == cur.ident:
+                    continue
+                while fr is not None:
+                    if fr.f_code is _mpp.IMapIterator.next.__code__ and fr.f_locals.get("self") is it:
+                        out["hazard"].append(cur.name)
+                        break
+                    fr = fr.f_back
+        return _orig_terminate(cls, taskqueue, inqueue, outqueue, pool, change_notifier, worker_handler, task_handler,
+                               result_handler, cache)
+    _mpp.Pool._terminate_pool = classmethod(_watched_terminate)
+    with real_pools(job["workers"], job["delay_seed"], job.get("start", "fork")):
         os.chdir(job["dir_a"])
         for rep in range(job["reps"]):
             try:
